@@ -415,17 +415,28 @@ def offset(reference, row_inc, col_inc, height=None, width=None):
     if width is None:
         width = base_addr.size.width
 
-    new_row = base_addr.row + row_inc
-    end_row = new_row + height - 1
-    new_col = base_addr.col_idx + col_inc
-    end_col = new_col + width - 1
+    # the numbers of a cell may be floats, excel truncates them
+    row_inc, col_inc, height, width = (
+        int(n) if isinstance(n, float) else n
+        for n in (row_inc, col_inc, height, width))
+
+    if height == 0 or width == 0:
+        return REF_ERROR
+
+    # a negative height or width extends up or to the left
+    new_row, end_row = sorted((base_addr.row + row_inc,
+                               base_addr.row + row_inc + height - (
+                                   1 if height > 0 else -1)))
+    new_col, end_col = sorted((base_addr.col_idx + col_inc,
+                               base_addr.col_idx + col_inc + width - (
+                                   1 if width > 0 else -1)))
 
     if new_row <= 0 or end_row > MAX_ROW or new_col <= 0 or end_col > MAX_COL:
         return REF_ERROR
 
     top_left = AddressCell((new_col, new_row, new_col, new_row),
                            sheet=base_addr.sheet)
-    if height == width == 1:
+    if new_row == end_row and new_col == end_col:
         return top_left
     else:
         bottom_right = AddressCell((end_col, end_row, end_col, end_row),
